@@ -8,4 +8,5 @@ mkdir -p .cache evidence replays
 ( cd coq && coq_makefile -f _CoqProject -o Makefile >/dev/null && timeout 3000 make -j"$(nproc)" >/dev/null )
 ( cd driver && bash build.sh )
 ( cd harness && cargo build --offline --quiet --bins --lib )
+( cd harness_nommap && CARGO_TARGET_DIR=/verif/.cache/target-nommap cargo build --offline --quiet )
 echo setup-ok
